@@ -96,7 +96,27 @@ def _is_type_checking(node: ast.If) -> bool:
 
 
 def _has_elif_block(node: ast.If) -> bool:
-    return bool(node.orelse) and len(node.orelse) == 1 and isinstance(node.orelse[0], ast.If)
+    # An ``elif`` is an ``If`` node that is the only statement of ``orelse`` and starts in
+    # the column of its parent; an ``else:`` block holding a single ``if`` is indented deeper.
+    return (
+        bool(node.orelse)
+        and len(node.orelse) == 1
+        and isinstance(node.orelse[0], ast.If)
+        and node.orelse[0].col_offset == node.col_offset
+    )
+
+
+def _first_line(node: ast.AST) -> int:
+    """Get the first source line of a node, including the decorators of a definition.
+
+    The ``lineno`` of a decorated function or class is the line of its ``def``/``class``
+    keyword, whereas its code object (``co_firstlineno``) and its statement start at
+    the first decorator.
+    """
+    return min((
+        scope_line_range(node)[0],
+        *(decorator.lineno for decorator in getattr(node, "decorator_list", ())),
+    ))
 
 
 @dataclass(frozen=True)
@@ -131,7 +151,7 @@ class ModuleAstInfo:
             iter(
                 scope
                 for scope in nodes_of_class(self.module_ast, SCOPE_CLASSES)
-                if scope_line_range(scope)[0] == lineno
+                if _first_line(scope) == lineno
             ),
             None,
         )
@@ -322,6 +342,11 @@ class AstInfo:
                 )
                 if child_lineno not in self.module.no_cover_lines
             )
+            or any(
+                scope_line_range(scope)[0] in self.module.only_cover_lines
+                for scope in nodes_of_class(self.module.module_ast, SCOPE_CLASSES)
+                if scope_line_range(scope)[0] <= lineno <= scope_line_range(scope)[1]
+            )
         )
 
     @staticmethod
@@ -337,7 +362,7 @@ class AstInfo:
         """
         if not body:
             return False
-        start = scope_line_range(body[0])[0]
+        start = _first_line(body[0])
         end = scope_line_range(body[-1])[1]
         return start <= lineno <= end
 
@@ -347,7 +372,7 @@ class AstInfo:
     ) -> Iterable[int]:
         if previous_body and after_body:
             prev_end = scope_line_range(previous_body[-1])[1]
-            after_start = scope_line_range(after_body[0])[0]
+            after_start = _first_line(after_body[0])
             yield from range(
                 prev_end + 1,
                 after_start,
@@ -384,14 +409,24 @@ class AstInfo:
             True if self should be covered, False otherwise.
         """
         start_line = scope_line_range(self.ast)[0]
-        return self._in_cover(start_line) and all(
-            self._in_cover(scope_line_range(definition_node)[0])
-            for definition_node in nodes_of_class(
-                self.module.module_ast, (ast.FunctionDef, ast.AsyncFunctionDef, ast.ClassDef)
+        return (
+            self._in_cover(start_line)
+            and all(
+                AstInfo(ast=definition_node, module=self.module)._in_cover(  # noqa: SLF001
+                    scope_line_range(definition_node)[0]
+                )
+                for definition_node in nodes_of_class(
+                    self.module.module_ast, (ast.FunctionDef, ast.AsyncFunctionDef, ast.ClassDef)
+                )
+                if scope_line_range(definition_node)[0]
+                <= start_line
+                <= scope_line_range(definition_node)[1]
             )
-            if scope_line_range(definition_node)[0]
-            <= start_line
-            <= scope_line_range(definition_node)[1]
+            # A scope that is defined inside an excluded branch of the module
+            # (at any nesting depth) is excluded as well.
+            and AstInfo(ast=self.module.module_ast, module=self.module).should_cover_line(
+                start_line
+            )
         )
 
     def should_cover_line(self, lineno: int) -> bool:
@@ -498,7 +533,9 @@ class AstInfo:
 
         Returns:
             True if it should be covered, False otherwise.
-            Defaults to True if there is no conditional statement at lineno.
+            Defaults to whether the line itself should be covered if there is no conditional
+            statement at lineno (e.g., the exception match of an ``except`` clause, a
+            conditional expression, a boolean operator or an ``assert``).
         """
         for branch_node in nodes_of_class(self.ast, (ast.If, ast.For, ast.While, ast.match_case)):
             start = scope_line_range(branch_node)[0]
@@ -518,7 +555,7 @@ class AstInfo:
                     )
                 )
 
-        return True
+        return self.should_cover_line(lineno)
 
 
 class InstrumentationAdapter(Protocol):
